@@ -30,3 +30,55 @@ package closest
 //@   loop 4:
 //@     invariant !failed(w)
 //@   ensures [c19] implies(result == nil, !failed(w))
+
+//@ # C07: the per-column classification on encoded symbols. disjoint(a,b) = (a&b) < 16; same resolved base = a&8==8 && a==b.
+//@ # (Lemmas EA_disjoint / EA_resolved / EA_same / EA_purine / EA_pyrimidine in the encoding package tie these bit tests to
+//@ # the IUPAC meaning of the symbols.) The counters equal the specification's counts over ALL columns.
+//@ func snpDistance
+//@   requires len(query.Seq) == len(target.Seq)
+//@   loop 1:
+//@     invariant n == count(k, 0, i, (query.Seq[k] & target.Seq[k]) < 16)
+//@   ensures !isnan(result) && result == float64(count(k, 0, len(target.Seq), (query.Seq[k] & target.Seq[k]) < 16))
+//@   ensures [identical] countzero(k, 0, len(target.Seq), (query.Seq[k] & target.Seq[k]) < 16) && implies(forall(k, 0, len(target.Seq), query.Seq[k] == target.Seq[k] && isCode(target.Seq[k]) && (target.Seq[k] & 8) == 8), result == 0.0)
+
+//@ func rawDistance
+//@   requires len(query.Seq) == len(target.Seq)
+//@   loop 1:
+//@     invariant n == count(k, 0, i, (query.Seq[k] & target.Seq[k]) < 16)
+//@     invariant d == n + count(k, 0, i, (query.Seq[k] & 8) == 8 && query.Seq[k] == target.Seq[k])
+//@   ensures [def] isnan(result) || result == float64(count(k, 0, len(target.Seq), (query.Seq[k] & target.Seq[k]) < 16)) / float64(count(k, 0, len(target.Seq), (query.Seq[k] & target.Seq[k]) < 16) + count(k, 0, len(target.Seq), (query.Seq[k] & 8) == 8 && query.Seq[k] == target.Seq[k]))
+//@   ensures [range] implies(!isnan(result), result >= 0.0 && result <= 1.0)
+//@   ensures [identical] countzero(k, 0, len(target.Seq), (query.Seq[k] & target.Seq[k]) < 16) && countall(k, 0, len(target.Seq), (query.Seq[k] & 8) == 8 && query.Seq[k] == target.Seq[k]) && implies(len(target.Seq) > 0 && forall(k, 0, len(target.Seq), query.Seq[k] == target.Seq[k] && isCode(target.Seq[k]) && (target.Seq[k] & 8) == 8), result == 0.0)
+//@   ensures [nan] isnan(result) == (count(k, 0, len(target.Seq), (query.Seq[k] & target.Seq[k]) < 16) + count(k, 0, len(target.Seq), (query.Seq[k] & 8) == 8 && query.Seq[k] == target.Seq[k]) == 0)
+
+//@ # tn93: Tamura & Nei (1993) eq. 7, written from the paper: gR = gA+gG, gY = gC+gT,
+//@ # d = -(2 gA gG/gR) ln(1 - gR/(2 gA gG) P1 - Q/(2 gR)) - (2 gT gC/gY) ln(1 - gY/(2 gT gC) P2 - Q/(2 gY))
+//@ #     - 2 (gR gY - gA gG gY/gR - gT gC gR/gY) ln(1 - Q/(2 gR gY))
+//@ spec tn93arg1(P1 float64, Q float64, gA float64, gG float64, gR float64) float64 = 1.0 - gR/(2.0*gA*gG)*P1 - Q/(2.0*gR)
+//@ spec tn93arg2(P2 float64, Q float64, gC float64, gT float64, gY float64) float64 = 1.0 - gY/(2.0*gT*gC)*P2 - Q/(2.0*gY)
+//@ spec tn93arg3(Q float64, gR float64, gY float64) float64 = 1.0 - Q/(2.0*gR*gY)
+//@ spec tn93c1(gA float64, gG float64, gR float64) float64 = 2.0*gA*gG/gR
+//@ spec tn93c2(gC float64, gT float64, gY float64) float64 = 2.0*gT*gC/gY
+//@ spec tn93c3(gA float64, gC float64, gG float64, gT float64, gR float64, gY float64) float64 = 2.0*(gR*gY - gA*gG*gY/gR - gT*gC*gR/gY)
+//@ func tn93Distance
+//@   requires len(query.Seq) == len(target.Seq)
+//@   requires forall(k, 0, len(target.Seq), isCode(query.Seq[k]) && isCode(target.Seq[k]))
+//@   requires query.Count_A == 0 && query.Count_C == 0 && query.Count_G == 0 && query.Count_T == 0
+//@   requires target.Count_A > 0 && target.Count_C > 0 && target.Count_G > 0 && target.Count_T > 0
+//@   loop 1:
+//@     invariant count_d == count(k, 0, i, (query.Seq[k] & target.Seq[k]) < 16 && (query.Seq[k] & 8) == 8 && (target.Seq[k] & 8) == 8)
+//@     invariant count_L == count_d + count(k, 0, i, (query.Seq[k] & 8) == 8 && query.Seq[k] == target.Seq[k])
+//@     invariant count_P1 == count(k, 0, i, (query.Seq[k] & target.Seq[k]) < 16 && (query.Seq[k] & 8) == 8 && (target.Seq[k] & 8) == 8 && (query.Seq[k] | target.Seq[k]) == 200)
+//@     invariant count_P2 == count(k, 0, i, (query.Seq[k] & target.Seq[k]) < 16 && (query.Seq[k] & 8) == 8 && (target.Seq[k] & 8) == 8 && (query.Seq[k] | target.Seq[k]) == 56)
+//@     invariant 0 <= count_P1 && 0 <= count_P2 && count_P1 + count_P2 <= count_d && count_d <= count_L
+//@   before return#1: assert [counts] count_L > 0 || isnan(P1)
+//@   before return#1: assert [freq] !isnan(g_A) && g_A > 0.0 && g_C > 0.0 && g_G > 0.0 && g_T > 0.0 && g_R == g_A + g_G && g_Y == g_C + g_T
+//@   before return#1: assert [freq.def] g_A == float64(target.Count_A) / float64(target.Count_A + target.Count_C + target.Count_G + target.Count_T) && g_C == float64(target.Count_C) / float64(target.Count_A + target.Count_C + target.Count_G + target.Count_T) && g_G == float64(target.Count_G) / float64(target.Count_A + target.Count_C + target.Count_G + target.Count_T) && g_T == float64(target.Count_T) / float64(target.Count_A + target.Count_C + target.Count_G + target.Count_T)
+//@   before return#1: assert [rates] implies(count_L > 0, P1 == float64(count_P1) / float64(count_L) && P2 == float64(count_P2) / float64(count_L) && Q == float64(count_d - count_P1 - count_P2) / float64(count_L))
+//@   before return#1: assert [arg1.quot] implies(count_L > 0, P1/k1 == g_R/(2.0*g_A*g_G)*P1)
+//@   before return#1: assert [arg2.quot] implies(count_L > 0, P2/k2 == g_Y/(2.0*g_T*g_C)*P2)
+//@   before return#1: assert [arg1] implies(count_L > 0, w1 == tn93arg1(P1, Q, g_A, g_G, g_R))
+//@   before return#1: assert [arg2] implies(count_L > 0, w2 == tn93arg2(P2, Q, g_C, g_T, g_Y))
+//@   before return#1: assert [arg3] implies(count_L > 0, w3 == tn93arg3(Q, g_R, g_Y))
+//@   before return#1: assert [coef] k1 == tn93c1(g_A, g_G, g_R) && k2 == tn93c2(g_C, g_T, g_Y) && k3 == tn93c3(g_A, g_C, g_G, g_T, g_R, g_Y)
+//@   ensures [eq7] implies(count(k, 0, len(target.Seq), (query.Seq[k] & target.Seq[k]) < 16 && (query.Seq[k] & 8) == 8 && (target.Seq[k] & 8) == 8) + count(k, 0, len(target.Seq), (query.Seq[k] & 8) == 8 && query.Seq[k] == target.Seq[k]) > 0, isnan(result) || result == -k1*log(w1) - k2*log(w2) - k3*log(w3))
